@@ -868,3 +868,163 @@ Proof.
     { etransitivity; [|etransitivity; [exact C|]]; f_equal; lia. }
     rewrite (mod_congr _ _ (prog_weight (c_kind c) r) C2). f_equal. ring.
 Qed.
+
+(* ================================================================= registration (registry.go) *)
+Lemma kind_eqb_eq a b : kind_eqb a b = true <-> a = b.
+Proof. destruct a, b; simpl; split; intros H; try reflexivity; discriminate. Qed.
+Lemma map_load_app_some m l k v : map_load m k = Some v -> map_load (m ++ l) k = Some v.
+Proof.
+  induction m as [|[k' v'] m IH]; simpl; [discriminate|]. destruct (N.eqb k k'); auto.
+Qed.
+Lemma map_load_store_same m k v : map_load m k = None -> map_load (map_store m k v) k = Some v.
+Proof.
+  unfold map_store. induction m as [|[k' v'] m IH]; simpl.
+  - rewrite N.eqb_refl. reflexivity.
+  - destruct (N.eqb k k'); [discriminate | auto].
+Qed.
+
+Definition rmono (s s' : rshared) : Prop :=
+  (forall k v, map_load (rmap s) k = Some v -> map_load (rmap s') k = Some v) /\
+  (forall id b, nth_error (robjs s) id = Some b -> nth_error (robjs s') id = Some b).
+(* a registrant that was told "ok, metric id" holds the object the registry maps its name to, with its schema *)
+Definition rth_ok (s : rshared) (th : rthread) : Prop :=
+  forall id, rt_pc th = RPDone (RROk id) ->
+    map_load (rmap s) (ro_name (rt_opts th)) = Some id /\
+    exists b, nth_error (robjs s) id = Some b /\ rb_kind b = ro_kind (rt_opts th) /\ rb_nl b = ro_nl (rt_opts th).
+Definition rwf (s : rshared) : Prop := forall k id, map_load (rmap s) k = Some id -> nth_error (robjs s) id <> None.
+Definition rth_nopanic (th : rthread) : Prop := rt_pc th <> RPDone RRPanic.
+
+Lemma rmono_refl s : rmono s s.
+Proof. split; auto. Qed.
+Lemma rth_ok_mono s s' th : rmono s s' -> rth_ok s th -> rth_ok s' th.
+Proof.
+  intros [M1 M2] H id E. destruct (H id E) as [A [b [B C]]]. split; [auto|]. exists b. split; auto.
+Qed.
+
+Definition rokcond (s : rshared) (th : rthread) (id : nat) : Prop :=
+  map_load (rmap s) (ro_name (rt_opts th)) = Some id /\
+  exists b, nth_error (robjs s) id = Some b /\ rb_kind b = ro_kind (rt_opts th) /\ rb_nl b = ro_nl (rt_opts th).
+Definition rconcl (v : variant) (s : rshared) (th : rthread) (s' : rshared) (th' : rthread) : Prop :=
+  rmono s s' /\ rwf s' /\ (rth_ok s th -> rth_ok s' th') /\ rt_opts th' = rt_opts th /\
+  (v = Repaired -> rth_nopanic th -> rth_nopanic th').
+
+Lemma rconcl_done v s s1 th r :
+  rwf s -> (s1 = s \/ s1 = rbump s) -> (forall id, r = RROk id -> rokcond s th id) ->
+  (v = Repaired -> r <> RRPanic) -> rconcl v s th s1 (rdone th r).
+Proof.
+  intros W Hs Hok Hnp.
+  assert (rmap s1 = rmap s /\ robjs s1 = robjs s) as [E1 E2] by (destruct Hs; subst; auto).
+  unfold rconcl. split; [|split; [|split; [|split]]].
+  - split; rewrite ?E1, ?E2; auto.
+  - intros k id. rewrite E1, E2. apply W.
+  - intros _ id E. simpl in E. inversion E as [E']. destruct (Hok id E') as [A B]. simpl. rewrite E1, E2. split; auto.
+  - reflexivity.
+  - intros Hv _. unfold rth_nopanic. simpl. intros E. inversion E. apply (Hnp Hv). assumption.
+Qed.
+
+Lemma rstep_inv v s th s' th' :
+  rwf s -> rstep v s th = (s', th') -> rconcl v s th s' th'.
+Proof.
+  intros W St. unfold rstep in St.
+  destruct (rt_pc th) eqn:Epc.
+  - (* RP0 *)
+    destruct (map_load (rmap s) (ro_name (rt_opts th))) as [id|] eqn:L.
+    + destruct (nth_error (robjs s) id) as [b|] eqn:G; [|exfalso; eapply W; eauto].
+      destruct (kind_eqb (rb_kind b) (ro_kind (rt_opts th))) eqn:K; simpl in St.
+      * destruct (Nat.eqb_spec (rb_nl b) (ro_nl (rt_opts th))); simpl in St; inversion St; subst; clear St;
+          apply rconcl_done; auto; try (intros; discriminate).
+        intros i E. inversion E; subst. split; [exact L|]. exists b. apply kind_eqb_eq in K. auto.
+      * inversion St; subst; clear St. apply rconcl_done; auto; intros; discriminate.
+    + inversion St; subst; clear St. unfold rconcl. split; [apply rmono_refl|]. split; [exact W|].
+      split; [intros _ i E; simpl in E; discriminate|]. split; [reflexivity|].
+      intros _ _. unfold rth_nopanic; simpl. discriminate.
+  - (* RP1 *)
+    destruct (map_load (rmap s) (ro_name (rt_opts th))) as [id|] eqn:L.
+    + destruct (nth_error (robjs s) id) as [b|] eqn:G; [|exfalso; eapply W; eauto].
+      destruct (kind_eqb (rb_kind b) (ro_kind (rt_opts th))) eqn:K; simpl in St.
+      * destruct (Nat.eqb_spec (rb_nl b) (ro_nl (rt_opts th))); simpl in St; inversion St; subst; clear St;
+          apply rconcl_done; auto; try (intros; discriminate).
+        intros i E. inversion E; subst. split; [exact L|]. exists b. apply kind_eqb_eq in K. auto.
+      * destruct v; inversion St; subst; clear St; apply rconcl_done; auto; intros; discriminate.
+    + inversion St; subst; clear St.
+      set (s1 := {| rmap := map_store (rmap s) (ro_name (rt_opts th)) (length (robjs s));
+                    robjs := robjs s ++ [{| rb_kind := ro_kind (rt_opts th); rb_nl := ro_nl (rt_opts th) |}];
+                    rerrs := rerrs s |}).
+      assert (M : rmono s s1).
+      { split; simpl.
+        - intros k v0 H. unfold map_store. apply map_load_app_some. exact H.
+        - intros i b H. rewrite nth_error_app1; [exact H | apply nth_error_Some; congruence]. }
+      unfold rconcl. split; [exact M|]. split; [|split; [|split]].
+      * intros k i H. simpl in H |- *.
+        assert (i < S (length (robjs s)))%nat as Hi.
+        { destruct (map_load (rmap s) k) as [i0|] eqn:Lk.
+          - pose proof (map_load_app_some _ [(ro_name (rt_opts th), length (robjs s))] _ _ Lk) as H2.
+            unfold map_store in H. rewrite H2 in H. inversion H; subst.
+            assert (nth_error (robjs s) i <> None) as Q by (eapply W; eauto). apply nth_error_Some in Q. lia.
+          - assert (i = length (robjs s)) as ->; [|lia].
+            unfold map_store in H. revert Lk H. generalize (rmap s) as m.
+            induction m as [|[k' v'] m IH]; simpl.
+            + destruct (N.eqb k (ro_name (rt_opts th))); intros _ H; [inversion H; reflexivity | discriminate].
+            + destruct (N.eqb k k'); [discriminate | auto]. }
+        intros N. apply nth_error_None in N. rewrite app_length in N. simpl in N. lia.
+      * intros _ i E. simpl in E. inversion E; subst. simpl. split; [apply map_load_store_same; exact L|].
+        eexists. split; [rewrite nth_error_app2 by lia; rewrite Nat.sub_diag; reflexivity | split; reflexivity].
+      * reflexivity.
+      * intros _ _. unfold rth_nopanic; simpl. discriminate.
+  - inversion St; subst; clear St. unfold rconcl. split; [apply rmono_refl|]. split; [exact W|]. auto.
+Qed.
+
+Record RInv (v : variant) (x : rsys) : Prop := {
+  ri_wf : rwf (rsh x);
+  ri_ok : Forall (rth_ok (rsh x)) (rths x);
+  ri_np : v = Repaired -> Forall rth_nopanic (rths x) }.
+
+Lemma rsys_step_inv v x i : RInv v x -> RInv v (rsys_step v x i).
+Proof.
+  intros [W OK NP]. unfold rsys_step. destruct (nth_error (rths x) i) as [th|] eqn:G; [|constructor; auto].
+  destruct (rstep v (rsh x) th) as [s' th'] eqn:St.
+  destruct (rstep_inv v _ _ _ _ W St) as [M [W' [K [_ P]]]].
+  assert (Hth : rth_ok (rsh x) th) by (rewrite Forall_forall in OK; apply OK; eapply nth_error_In; eauto).
+  constructor; simpl.
+  - exact W'.
+  - apply Forall_upd; [|auto]. eapply Forall_impl; [|exact OK]. intros a Ha. eapply rth_ok_mono; eauto.
+  - intros Hv. specialize (NP Hv). apply Forall_upd; [exact NP|]. apply P; [exact Hv|].
+    rewrite Forall_forall in NP. apply NP. eapply nth_error_In; eauto.
+Qed.
+
+Lemma rrun_sched_inv v sched : forall x, RInv v x -> RInv v (rrun_sched v x sched).
+Proof. induction sched as [|i r IH]; intros x H; simpl; [exact H|]. apply IH. apply rsys_step_inv. exact H. Qed.
+
+Lemma RInv0 v os : RInv v (rsys0 os).
+Proof.
+  constructor; simpl.
+  - intros k id H. discriminate.
+  - apply Forall_forall. intros th H. apply in_map_iff in H as [o [<- _]]. intros id E. discriminate.
+  - intros _. apply Forall_forall. intros th H. apply in_map_iff in H as [o [<- _]]. unfold rth_nopanic; simpl. discriminate.
+Qed.
+
+(* for every interleaving of any number of Register calls (either variant): all registrants of one name that are
+   told "ok" obtain the SAME metric object, it is the object the registry maps the name to (the one snapshots
+   walk), and it has the type and label schema each of them asked for *)
+Lemma reg_unique v os sched :
+  let x := rrun_sched v (rsys0 os) sched in
+  forall i j ti tj a b,
+    nth_error (rths x) i = Some ti -> nth_error (rths x) j = Some tj ->
+    ro_name (rt_opts ti) = ro_name (rt_opts tj) ->
+    rt_pc ti = RPDone (RROk a) -> rt_pc tj = RPDone (RROk b) ->
+    a = b /\ map_load (rmap (rsh x)) (ro_name (rt_opts ti)) = Some a /\
+    exists o, nth_error (robjs (rsh x)) a = Some o /\ rb_kind o = ro_kind (rt_opts ti) /\ rb_nl o = ro_nl (rt_opts ti).
+Proof.
+  intros x i j ti tj a b Gi Gj En Ea Eb.
+  pose proof (rrun_sched_inv v sched _ (RInv0 v os)) as [_ OK _]. fold x in OK. rewrite Forall_forall in OK.
+  destruct (OK ti (nth_error_In _ _ Gi) a Ea) as [A1 A2]. destruct (OK tj (nth_error_In _ _ Gj) b Eb) as [B1 _].
+  rewrite <- En in B1. split; [congruence|]. split; [exact A1 | exact A2].
+Qed.
+
+Lemma reg_no_panic os sched :
+  let x := rrun_sched Repaired (rsys0 os) sched in
+  forall i th, nth_error (rths x) i = Some th -> rt_pc th <> RPDone RRPanic.
+Proof.
+  intros x i th G. pose proof (rrun_sched_inv Repaired sched _ (RInv0 Repaired os)) as [_ _ NP]. fold x in NP.
+  specialize (NP eq_refl). rewrite Forall_forall in NP. apply NP. eapply nth_error_In; eauto.
+Qed.
